@@ -441,7 +441,7 @@ func (dbb *DialogBasedBackend) AddBackend(dialog string, backend Backend, expire
 	expire := time.Now().Add(timeout)
 	dbb.backends[dialog] = &ExpireBackend{backend: backend, expire: expire}
 	if dbb.nextCleanTime.Before(time.Now()) {
-		dbb.nextCleanTime = expire
+		dbb.nextCleanTime = time.Now().Add(dbb.timeout)
 		dbb.cleanExpiredDialog()
 	}
 }
